@@ -11,7 +11,7 @@ PROFILE = dict(
     nontrivial_probes=['touched_targets_checked'],
     backends=["slurm", "slurm", "sge", "lsf", "local"],
     sizes=[2, 3, 4, 5, 6, 8, 10],
-    weights=dict(touch=4, run=1, status=0.5, start=1, finish=1, sched_cancel=0.3, modify_source=1, delete_output=1.5,
+    weights=dict(links=0.4, touch=4, run=1, status=0.5, start=1, finish=1, sched_cancel=0.3, modify_source=1, delete_output=1.5,
                  touch_file=1, set_file=1.5, edit_spec=0.5, advance=1, tick=1, clock_jump=0.4),
     p_job_ok=0.6, p_hashing=0.4, p_huge=0.02,
 )
